@@ -2,6 +2,7 @@ package leader
 
 import (
 	"context"
+	"sync"
 	"time"
 
 	"github.com/nats-io/nats.go"
@@ -460,29 +461,43 @@ func (a *natsKeyValueAdapter) Watch(key string, opts ...interface{}) (Watcher, e
 	if err != nil {
 		return nil, err
 	}
-	return &natsWatcherAdapter{watcher: natsWatcher}, nil
+	return &natsWatcherAdapter{watcher: natsWatcher, done: make(chan struct{})}, nil
 }
 
 type natsWatcherAdapter struct {
-	watcher nats.KeyWatcher
+	watcher   nats.KeyWatcher
+	once      sync.Once
+	entryChan chan Entry
+	done      chan struct{} // closed by Stop: releases the forwarder
+	stopOnce  sync.Once
 }
 
+// Updates returns the channel on which entries are delivered. The channel and its
+// forwarding goroutine are created once per watcher: every call returns the same
+// channel (as nats.KeyWatcher.Updates does), so callers may call it per select.
 func (a *natsWatcherAdapter) Updates() <-chan Entry {
-	entryChan := make(chan Entry, 1)
-	go func() {
-		defer close(entryChan)
-		for natsEntry := range a.watcher.Updates() {
-			if natsEntry != nil {
-				entryChan <- &natsEntryAdapter{entry: natsEntry}
-			} else {
-				entryChan <- nil
+	a.once.Do(func() {
+		a.entryChan = make(chan Entry, 1)
+		go func() {
+			defer close(a.entryChan)
+			for natsEntry := range a.watcher.Updates() {
+				var entry Entry
+				if natsEntry != nil {
+					entry = &natsEntryAdapter{entry: natsEntry}
+				}
+				select {
+				case a.entryChan <- entry:
+				case <-a.done:
+					return
+				}
 			}
-		}
-	}()
-	return entryChan
+		}()
+	})
+	return a.entryChan
 }
 
 func (a *natsWatcherAdapter) Stop() {
+	a.stopOnce.Do(func() { close(a.done) })
 	_ = a.watcher.Stop()
 }
 
